@@ -382,10 +382,14 @@ def main(argv=None):
             rec = json.load(f)
         ctx = Ctx(prop, args.tier, seed, "replay")
         ctx.replaying = True
+        _limit_memory()
         try:
-            mod.replay(ctx, rec["witness"])
+            with ctx.guard(300.0):
+                mod.replay(ctx, rec["witness"])
         except CaseTimeout:
             ctx.inconclusive_because("replayed case hit the watchdog")
+        except MemoryError:
+            ctx.inconclusive_because("replayed case exhausted the memory limit")
         merged.add(ctx.result(), ctx._distinct)
         tier = "replay"
     else:
